@@ -91,23 +91,23 @@ PENDING = "check not built yet in this revision (DESIGN.md section 4 describes t
 
 # clauses added in round 4 (DESIGN.md section 4, "Added in round 4")
 ADD4 = {
- "C01": "Also: a slice bound that is the answer of strings.Index & co. is reachable only where the search is known to have succeeded; pointer parameters of the entry points are dereferenced only under a nil test.",
- "C02": "Also: every text rendering of a non-Text element is InnerText of a tree or empty (no attribute value becomes a word); no HTML rendering that is concatenated with its neighbours comes from a trimming serializer (recognised by shape).",
+ "C01": "Also: a slice bound that is the answer of strings.Index & co. is reachable only where the search is known to have succeeded; pointer parameters of the entry points are dereferenced only under a nil test. nil *url.URL locals are dereferenced only where no nil edge can reach.",
+ "C02": "Also: every text rendering of a non-Text element is InnerText of a tree or empty (no attribute value becomes a word); no HTML rendering that is concatenated with its neighbours comes from a trimming serializer (recognised by shape). The InnerText collector conforms to its decision list; no pass rewrites the clone before the walk.",
  "C03": "Also: the walker's child loop has no bound or filter of its own and always walks the child.",
- "C04": "Also: the compiled display/visibility pattern constants are asked about fixed declarations (!important, blanks around the colon, position in the style), and the text collector leaves out script/style by tag; template content is never rendered.",
- "C05": "Also: the element names whose text the x/net/html serializer writes unescaped (read from the sources of the version in use) are taken out of svg/math before the converter walks its clone, so escaped text cannot come back as markup when Apply parses the output again.",
- "C06": "Also: a video's sources get srcset absolutised, area[href] is covered, and the compiled srcset pattern yields exactly the candidate URLs of fixed values.",
+ "C04": "Also: the compiled display/visibility pattern constants are asked about fixed declarations (!important, blanks around the colon, position in the style), and the text collector leaves out script/style by tag; template content is never rendered. The caption visibility walk starts at the element; no pass rewrites the clone before the gate; the foreign-content pass keeps only the children of a visible xmp/plaintext.",
+ "C05": "Also: the element names whose text the x/net/html serializer writes unescaped (read from the sources of the version in use) are taken out of svg/math before the converter walks its clone, so escaped text cannot come back as markup when Apply parses the output again. A processed tree gets nothing back afterwards.",
+ "C06": "Also: a video's sources get srcset absolutised, area[href] is covered, and the compiled srcset pattern yields exactly the candidate URLs of fixed values. ApplyForURL's base is the supplied URL as parsed.",
  "C07": "Also: a placeholder is appended behind the text that precedes it (flush rule shared with C02).",
- "C08": "Also: whether a media element exists at all is the documented visibility decision; a retained media element never renders as the empty string; a wrapper counts as empty only by its children, never by a count of descendants.",
- "C09": "Also: any text rendering that is not InnerText of the tree the HTML view serialises is reported; the HTML view does not glue words (no trimmed concatenation); the compiled word-counter patterns split at every Unicode white space.",
+ "C08": "Also: whether a media element exists at all is the documented visibility decision; a retained media element never renders as the empty string; a wrapper counts as empty only by its children, never by a count of descendants. No pass rewrites the clone before the walk; the InnerText collector conforms.",
+ "C09": "Also: any text rendering that is not InnerText of the tree the HTML view serialises is reported; the HTML view does not glue words (no trimmed concatenation); the compiled word-counter patterns split at every Unicode white space. The counters do not split at format characters; aria-hidden is not kept by the allow-list.",
  "C11": "Also: third-party code reachable from Apply/ApplyForReader/ApplyForFile is scanned for goroutines/select (one known finding: the charset guesser of dom.Parse).",
  "C12": "Also: nothing but timing data depends on the clock (shared with C11).",
- "C13": "Also: filter-in-place appends inside log regions count as writes; ApplyForURL parses the supplied string fragment-aware.",
+ "C13": "Also: filter-in-place appends inside log regions count as writes; ApplyForURL parses the supplied string fragment-aware. ApplyForURL copies the caller's options whole.",
  "C14": "Also: the OpenGraph prefix table is written only under the entry of the declared namespace, og:type is known before the type-dependent parsers run, property names match as a whole, and nothing rewrites the document the parsers read.",
  "C15": "Also: no markup title for a page that opted out; InnerText changes nothing but whitespace; every block is compared with the potential titles.",
  "C16": "Also: relative hrefs are resolved against the caller's page URL itself, followed through the call graph to FindPagination's parameter.",
- "C19": "Also: a root domain only for http/https URLs; the tested value is the element's own address attribute; ids come from the path of url.Parse; srcdoc is not an allowed attribute.",
- "C20": "Also: a pruned element makes no call on the document builder; roles of the unlikely-role table are compared nowhere else; with SkipUnlikelies set the unlikely candidates are removed from the clone before the walk by a pass that conforms to the documented decision list (pruned = deleted).",
+ "C19": "Also: a root domain only for http/https URLs; the tested value is the element's own address attribute; ids come from the path of url.Parse; srcdoc is not an allowed attribute. The literal-text round trip (C05-S4) is shared.",
+ "C20": "Also: a pruned element makes no call on the document builder; roles of the unlikely-role table are compared nowhere else; with SkipUnlikelies set the unlikely candidates are removed from the clone before the walk by a pass that conforms to the documented decision list (pruned = deleted). The counters agree on text without CJK/Hangul characters.",
 }
 for _k, _v in ADD4.items():
     CLAIMS[_k]["text"] += " " + _v
